@@ -259,7 +259,7 @@ def run(ctx):
     ctx.assumptions += [
         "theorems are about exact real arithmetic (Real.sqrt, Real.rpow); IEEE rounding, libm and the compiler are not modelled: the tie is the Float instantiation of the same Lean definitions agreeing with the C++ within rel 1e-9 on the generated inputs",
         "convergence of the Newton and Brent iterations in doubles is NOT a theorem: brent_bracket gives a root of the real pressure function inside the final interval and the stated accuracy only when the loop leaves through its tolerance test (or f(b) = 0); leaving through the 1e4 counter gives only the final interval",
-        "the Newton exit (no sign change found: result = last Newton iterate) is covered by the correspondence and the __float128 search oracle only",
+        "premises of pstar_accurate_partial (Newton loop terminated; Brent did not use up its 1e4 iterations unless the star pressure underflows) are evaluated on the model for every iterative case of the run: coverage.premises_pstar_accurate",
         "the model's Newton loop has a fuel argument (100000) that the C++ while loop does not have; the driver reports if it ever runs out (never observed)",
         "domain hypotheses of the theorems: rho, P > 0, gamma > 1 (the constructor clamps gamma to >= 1.00000001), no vacuum generation; std::isinf tests are false at the reals",
         "the __float128 reference solver in harness/c11.cpp (written from Toro ch. 4) is a search oracle for violations, not part of the proof; its tolerances scale with 1 + 2/(gamma-1); next to a wave (within 1e-7 of the velocity scale) the sample must lie in the envelope of the reference solution; samples that are numerically vacuum on both sides are accepted whatever the flag",
@@ -326,17 +326,34 @@ def run(ctx):
             sops.append("solvex %s %d" % (state_words(st), B(x)))
     n, impl, model, orc = ctx.correspond("solve", h, drv, sops, cmp=cmp, oracle_key=oracle_key)
     nprint = 0
+    prem = {"cases": 0, "brent_budget_exceeded": 0, "brent_budget_exceeded_underflow": 0}
     for op, ml, il in zip(sops, model, impl):
         ctx.count()
         br = count_solve_tags(ctx, ml)
         ctx.distinct(op, nontrivial=br not in TRIVIAL)
         if "FUEL-OUT" in ml or "BRENT-ERROR" in ml:
             ctx.broken_obligation("model left its domain on %r: %s" % (op, ml))
+        # premises of pstar_accurate_partial, evaluated on every iterative case: the Newton loop
+        # terminated (checked above) and Brent's method did not use up its 1e4 iterations -
+        # except where the star pressure underflows (known finding riemann:star-pressure-underflow)
+        if " path" in ml and op.startswith("solve "):
+            prem["cases"] += 1
+            if "brent-fuel-out" in ml:
+                w = op.split()
+                ps = [x for x in ml.split() if x.startswith("pstar=")]
+                pv = F(ps[0][6:]) if ps and ps[0][6:].isdigit() else float("nan")
+                if pv > 1e-290 * min(F(w[4]), F(w[7])):
+                    prem["brent_budget_exceeded"] += 1
+                    if prem["brent_budget_exceeded"] == 1:
+                        ctx.broken_obligation("premise of pstar_accurate_partial fails on the model: Brent's method used all 1e4 iterations with a representable star pressure on %r: %s" % (op, ml))
+                else:
+                    prem["brent_budget_exceeded_underflow"] += 1
         if nprint < 4 and br in (1, 5, 9, 112):
             w = op.split()
             ctx.sample({"gamma": F(w[1]), "L": [F(x) for x in w[2:5]], "R": [F(x) for x in w[5:8]],
                         "dxdt": F(w[8]), "impl": il, "model": ml})
             nprint += 1
+    ctx.cov["premises_pstar_accurate"] = prem
     ctx.cov["bit_exact_rate"] = round(stats.bitexact / stats.n, 6) if stats.n else None
     ctx.cov["compared_lines"] = stats.n
     ctx.cov["max_rel_diff_not_bit_exact"] = stats.maxrel
@@ -375,10 +392,11 @@ MANIFEST = dict(
          "brent_bracket: for every function, bracket and iteration count the Brent loop keeps the sign change inside the initial bracket, ends with fuel = 0 or f(b) = 0 or |a-b| <= 5e-9(a+b), and (IVT) a root lies between a and the returned b; "
          "solve_brent_root / star_brent_root: solve never reaches the cmac_error of solve_brent, hands Brent a bracket in p >= 0 with f(lo) < 0 < f(hi); ustar_identity; shock_RH_right/left (mass, momentum, energy across the sampled shock with the sampled speed); "
          "rarefaction_isentropic, fan_right/fan_left (sound speed a*base, Riemann invariant, u +- a = xi), fan_right_base_pos, rarefaction_invariant_star; sample_continuous_at_head_tail and continuity in the sampling speed of the whole rarefaction sampler (sample_*_rarefaction_continuous), contact_continuous; "
-         "vacuum_joins_fan / vacuum_generation_joins_fans on the vacuum samplers of Model/RiemannVacuum.lean. PARTIAL (named *_partial): accuracy 1.00000001e-8 of p* only when the Brent path was taken and did not exhaust its 1e4 iterations (pstar_accurate_partial); Newton exit: only its exit test (newton_exit_partial). "
+         "vacuum_joins_fan / vacuum_generation_joins_fans on the vacuum samplers of Model/RiemannVacuum.lean. f_concave_fprime_slope: f is concave with the CODED derivative fprime as slope of a supporting line (tangent inequality across the shock/rarefaction switch), fprime > 0, p*fprime(p) non-decreasing; newton_exit_accurate: when the last Newton iterate is returned it is never above the root and at most 1.1e-16 (relative) below it; ustar_defect (u* = u_R + f_R - f(p*)/2 for every p*); star_feeds_samplers (the hypotheses of the sampling theorems follow from f(p*) = 0 for the data solve passes on); solve_iterative_iff / sampleStar_real (over the reals solve takes its iterative part exactly for non-vacuum states without vacuum generation and is then sampleStar(star), the functions the theorems are about); identical_states_exact (p* = P, u* = u exactly); pressure_root_exists_unique. "
+         "PARTIAL (named *_partial): pstar_accurate_partial: on BOTH paths p* is within 1.00000001e-8 (relative) of THE root, under two premises that are evaluated on every correspondence case (Newton loop terminated; Brent's method, if used, did not exhaust its 1e4 iterations) - a bound on the number of Brent iterations is not proved. "
          "Tie: Float instantiation vs the real ExactRiemannSolver (constants, fb/fprimeb/gb, guess_P, solve_brent incl. its error exit, solve) on generated inputs incl. exact ties with every wave speed; flag and coarse branch identical, values rel 1e-9 (measured: bit-identical). "
          "Search oracle on the implementation: independent __float128 reference solver from Toro ch.4 (reference sample, pressure-equation residual, Rankine-Hugoniot, isentropy, invariants, characteristic).",
     note="Trusted: Lean kernel + 3 standard axioms; hand model of ExactRiemannSolver.hpp (lines 81-600, 866-1002) and C05's model of the vacuum samplers; exact-real arithmetic (rounding, libm not modelled; std::isinf false at the reals); "
-         "NOT proved: termination/convergence of Newton and Brent in doubles and within the 1e4 budget, accuracy of the Newton exit; the model's Newton loop has a fuel (100000) the C++ loop lacks. "
+         "NOT proved: termination of the Newton loop and that Brent's method needs at most 1e4 iterations (checked premises, see coverage.premises_pstar_accurate), anything about rounding; the model's Newton loop has a fuel (100000) the C++ loop lacks. "
          "The oracle found two genuine defects: NaN at the vacuum front (fixed in /repo 52f78a3) and star-pressure underflow for gamma close to 1 (recorded finding riemann:star-pressure-underflow).",
     technique="Lean 4 proof (Mathlib real analysis: rpow, sqrt, IVT) over a generic-arithmetic model + bit-level differential correspondence of its Float instance + __float128 reference solver as violation search")
